@@ -68,7 +68,7 @@ theorem idle_of_quiescent {s : St} (hq : quiescent s = true) (hx : s.exited = fa
 
 /-- a settled state of a running daemon is clean. -/
 theorem clean_of_idle {s : St} (hI : Inv s) (hi : Idle s) :
-    s.pending = false ∧ s.suppress = 0 ∧ s.progress.isBusy = false ∧ s.active = false ∧
+    s.pending = false ∧ s.suppress = 0 ∧ (s.faults = 0 → s.progress.isBusy = false) ∧ s.active = false ∧
     s.reloading = false := by
   obtain ⟨tok, sup, wfw, wfm, rel1, store, note, busy, act, proc, tail, own⟩ := hI
   obtain ⟨hm, hw, hq, hn, g1, g2, g3, g4, g5, _⟩ := hi
@@ -84,9 +84,10 @@ theorem clean_of_idle {s : St} (hI : Inv s) (hi : Idle s) :
     · rfl
     · simp [h] at tok
   refine ⟨hp, by simpa using sup, ?_, ?_, hr⟩
-  · cases hb : s.progress.isBusy
+  · intro hf0
+    cases hb : s.progress.isBusy
     · rfl
-    · rcases busy hb with h | h | h | h
+    · rcases busy hf0 hb with h | h | h | h
       · rw [hp] at h; cases h
       · simp [hm] at h
       · simp [hw] at h
@@ -99,14 +100,18 @@ theorem clean_of_idle {s : St} (hI : Inv s) (hi : Idle s) :
       · rw [hr] at h; cases h
 
 /-- a settled state of a running daemon does not still say `Processing`. -/
-theorem not_processing_of_idle {s : St} (hI : Inv s) (hi : Idle s) : s.progress.isProcessing = false := by
+theorem not_processing_of_idle {s : St} (hI : Inv s) (hi : Idle s) (hf0 : s.faults = 0) :
+    s.progress.isProcessing = false := by
   have hr := (clean_of_idle hI hi).2.2.2.2
   cases hp : s.progress.isProcessing
   · rfl
-  · rcases hI.proc hp with h | h | h
+  · rcases hI.proc hf0 hp with h | h | h
     · simp [hi.w] at h
     · simp [hi.m] at h
     · rw [hr] at h; cases h.1
+
+theorem execF_fst {s : St} {x : Micro} {r : St × List Micro} (h : execF s x = some r) : r.1 = s := by
+  cases x <;> simp only [execF, Option.some.injEq, reduceCtorEq] at h <;> subst h <;> rfl
 
 /-! ## termination of internal steps -/
 
@@ -202,6 +207,36 @@ theorem mu_step_lt {s s' : St} {a : Act} (hs : step s a = some s') (ha : a.isExt
         omega
       · cases hs
     · cases hs
+  case stepMF =>
+    split at hs
+    · cases hs
+    · rename_i x rest hm
+      split at hs
+      · rename_i r hr
+        simp only [Option.some.injEq] at hs; subst hs
+        have e : mu s = mu { s with m := x :: rest } := by rw [← hm]
+        rw [e]
+        cases x <;> simp only [execF, Option.some.injEq, reduceCtorEq] at hr
+        all_goals subst hr
+        all_goals simp only [mu, wsum_cons, wsum_append, wsum_nil, Micro.fuel]
+        all_goals (repeat' split)
+        all_goals ((try simp only [wsum_cons, wsum_nil, Micro.fuel] at *); omega)
+      · cases hs
+  case stepWF =>
+    split at hs
+    · cases hs
+    · rename_i x rest hw
+      split at hs
+      · rename_i r hr
+        simp only [Option.some.injEq] at hs; subst hs
+        have e : mu s = mu { s with w := x :: rest } := by rw [← hw]
+        rw [e]
+        cases x <;> simp only [execF, Option.some.injEq, reduceCtorEq] at hr
+        all_goals subst hr
+        all_goals simp only [mu, wsum_cons, wsum_append, wsum_nil, Micro.fuel]
+        all_goals (repeat' split)
+        all_goals ((try simp only [wsum_cons, wsum_nil, Micro.fuel] at *); omega)
+      · cases hs
   all_goals (
     split at hs
     · simp only [Option.some.injEq] at hs; subst hs
@@ -348,17 +383,30 @@ structure ClockOk (s : St) : Prop where
   g : s.gLeft ≤ totalSwitchBudget
   age : 0 ≤ s.nextRet.age
   mute : s.muteLeft ≤ quiesceNs
+  /-- recorded request times lie in the past. -/
+  metaLe : ∀ t, s.metaAt = some t → t ≤ s.now
+  req : s.reqAt ≤ s.now
+
+theorem age_nonneg (s : St) (h : ClockOk s) : 0 ≤ (retScenarioOf s).age := by
+  simp only [retScenarioOf]
+  cases hm : s.metaAt with
+  | none => simp
+  | some t => have := h.metaLe t hm; simp; omega
 
 theorem clock_exec (s : St) (x : Micro) (h : ClockOk s) :
     (exec s x).1.mgrLeft ≤ totalSwitchBudget ∧ (exec s x).1.gLeft ≤ totalSwitchBudget ∧
-    0 ≤ (exec s x).1.nextRet.age ∧ (exec s x).1.muteLeft ≤ quiesceNs := by
-  obtain ⟨h1, h2, h3, h4⟩ := h
-  have := retireDoneAt_le_total s.nextRet h3
+    0 ≤ (exec s x).1.nextRet.age ∧ (exec s x).1.muteLeft ≤ quiesceNs ∧
+    (∀ t, (exec s x).1.metaAt = some t → t ≤ (exec s x).1.now) ∧ (exec s x).1.reqAt ≤ (exec s x).1.now := by
+  have := retireDoneAt_le_total (retScenarioOf s) (age_nonneg s h)
+  obtain ⟨h1, h2, h3, h4, h5, h6⟩ := h
   cases x <;> simp only [exec] <;> (repeat' split) <;> (try simp only) <;>
-    exact ⟨by omega, by omega, h3, by first | omega | exact Nat.le_refl _⟩
+    refine ⟨by omega, by omega, h3, by first | omega | exact Nat.le_refl _, ?_, by first | omega | exact Nat.le_refl _⟩ <;>
+    first
+      | exact h5
+      | (intro t ht; simp only [Option.some.injEq] at ht; omega)
 
 theorem clock_step {s s' : St} (h : ClockOk s) (a : Act) (hs : step s a = some s') : ClockOk s' := by
-  obtain ⟨h1, h2, h3, h4⟩ := h
+  obtain ⟨h1, h2, h3, h4, h5, h6⟩ := h
   unfold step at hs
   cases hex : s.exited
   case true => simp [hex] at hs
@@ -368,24 +416,43 @@ theorem clock_step {s s' : St} (h : ClockOk s) (a : Act) (hs : step s a = some s
     split at hs
     · cases hs
     · simp only [Option.some.injEq] at hs; subst hs
-      obtain ⟨a1, a2, a3, a4⟩ := clock_exec s _ ⟨h1, h2, h3, h4⟩
-      exact ⟨a1, a2, a3, a4⟩
+      obtain ⟨a1, a2, a3, a4, a5, a6⟩ := clock_exec s _ ⟨h1, h2, h3, h4, h5, h6⟩
+      exact ⟨a1, a2, a3, a4, a5, a6⟩
   case stepW =>
     split at hs
     · cases hs
     · simp only [Option.some.injEq] at hs; subst hs
-      obtain ⟨a1, a2, a3, a4⟩ := clock_exec s _ ⟨h1, h2, h3, h4⟩
-      exact ⟨a1, a2, a3, a4⟩
+      obtain ⟨a1, a2, a3, a4, a5, a6⟩ := clock_exec s _ ⟨h1, h2, h3, h4, h5, h6⟩
+      exact ⟨a1, a2, a3, a4, a5, a6⟩
+  case stepMF =>
+    split at hs
+    · cases hs
+    · split at hs
+      · rename_i r hr
+        simp only [Option.some.injEq] at hs; subst hs
+        have e := execF_fst hr
+        refine ⟨?_, ?_, ?_, ?_, ?_, ?_⟩ <;> simp only [e] <;> assumption
+      · cases hs
+  case stepWF =>
+    split at hs
+    · cases hs
+    · split at hs
+      · rename_i r hr
+        simp only [Option.some.injEq] at hs; subst hs
+        have e := execF_fst hr
+        refine ⟨?_, ?_, ?_, ?_, ?_, ?_⟩ <;> simp only [e] <;> assumption
+      · cases hs
   all_goals (
     repeat' split at hs
     all_goals first
       | (cases hs <;> done)
       | (simp only [Option.some.injEq] at hs; subst hs
-         refine ⟨?_, ?_, ?_, ?_⟩ <;> (try simp only [exec]) <;> (repeat' split) <;> first | omega | exact Nat.le_refl _))
+         refine ⟨?_, ?_, ?_, ?_, ?_, ?_⟩ <;> (try simp only [exec]) <;> (repeat' split) <;>
+           first | omega | exact Nat.le_refl _ | exact h5 | (intro t ht; have := h5 t ht; omega)))
 
 theorem reachable_clock {s : St} (h : Reachable s) : ClockOk s := by
   induction h with
-  | init => exact ⟨by simp [init], by simp [init], by simp [init], by simp [init]⟩
+  | init => exact ⟨by simp [init], by simp [init], by simp [init], by simp [init], by simp [init], by simp [init]⟩
   | step a _ hs ih => exact clock_step ih a hs
 
 def tickOf : Act → Nat
@@ -444,6 +511,22 @@ theorem blocked_step {s s' : St} (hI : Inv s) (hx : s.exited = false) (hg : 0 < 
       have : d ≤ s.gLeft := by rcases hc.2 with h | h <;> omega
       exact ⟨rfl, by simp only; omega⟩
     · cases hs
+  case stepMF =>
+    split at hs
+    · cases hs
+    · split at hs
+      · rename_i r hr
+        simp only [Option.some.injEq] at hs; subst hs
+        simp [execF_fst hr]
+      · cases hs
+  case stepWF =>
+    split at hs
+    · cases hs
+    · split at hs
+      · rename_i r hr
+        simp only [Option.some.injEq] at hs; subst hs
+        simp [execF_fst hr]
+      · cases hs
   all_goals (
     repeat' split at hs
     all_goals first
